@@ -115,7 +115,7 @@ theorem C06_mergeOut_stable (s : St) (db : DB) (g : GDir) (n : Nat) (gm vis : GD
       next restart. -/
 theorem C06_adopt (s : St) (db : DB) (g : GDir) (n : Nat) (gm vis : GDir) (cfg' : Cfg)
     (hdb : s.db = some db) (hinv : Inv s db g) (hmo : MergeOutW s.world db.dir g n gm vis)
-    (hF : HintFits gm) (hcfg : cfg'.fileSize > 0) :
+    (hF : HintFits gm) (hcfg : cfg'.Valid) :
     (close s).2 = .ok ∧
     ∃ s' db' d md maxFid, s.world.get db.dir = some d ∧ s.world.get (mergeDirName db.dir) = some md ∧
       openDB (close s).1 db.dir cfg' = (s', .ok) ∧ s'.db = some db' ∧
@@ -161,7 +161,7 @@ theorem C06_adopt (s : St) (db : DB) (g : GDir) (n : Nat) (gm vis : GDir) (cfg' 
     restart = after the next restart. -/
 theorem C06_second_restart (s' : St) (db' : DB) (gnew : GDir) (cfg'' : Cfg)
     (hdb : s'.db = some db') (hinv : Inv s' db' gnew) (hgone : s'.world.get (mergeDirName db'.dir) = none)
-    (hcfg : cfg''.fileSize > 0) :
+    (hcfg : cfg''.Valid) :
     ∃ s'' db'', openDB (close s').1 db'.dir cfg'' = (s'', .ok) ∧ s''.db = some db'' ∧
       (∀ k, absGet s'' db'' k = absGet s' db' k) ∧ Inv s'' db'' gnew ∧
       db''.total = (replayLog (logOf gnew)).total ∧ db''.reclaim = (replayLog (logOf gnew)).reclaim := by
